@@ -150,6 +150,18 @@ def firstTwo : List Val → Option (Val × Val)
 def deepFirst (down : Bool) (data : List Val) : Option Bool :=
   (firstTwo data).map fun (d1, d2) => vgt d1 d2 == down
 
+/-- `if positive_down is not None: new_variable.attrs['positive'] = 'down' if positive_down else 'up'` -/
+def withPositive (pd : Option Bool) (new : Dataset) (name : String) : Dataset :=
+  match pd with
+  | some b => new.modify name (Var.setPositive (posName b))
+  | none => new
+
+/-- `positive_down is not None and data_positive_down != positive_down` -/
+def wantFlip (pd : Option Bool) (dataPD : Bool) : Bool :=
+  match pd with
+  | some b => dataPD != b
+  | none => false
+
 /-- One iteration of the loop over `depth_coordinates`. `orig` is the function's argument
 (attributes and the guess are read from it), `new` is `new_dataset` so far.
 Result: the next `new_dataset` and the warnings of this iteration (`name:guess`);
@@ -161,14 +173,10 @@ def normStep (orig : Dataset) (pd dts : Option Bool) (new : Dataset) (name : Str
   | some cvar =>
     match cvar.dims with
     | [dim] =>
-      let new1 := match pd with
-        | some b => new.modify name (Var.setPositive (posName b))
-        | none => new
+      let new1 := withPositive pd new name
       let dataPD := signDown cvar
       let warn := if cvar.positive.isNone then [name ++ ":" ++ posName dataPD] else []
-      let doFlip := match pd with
-        | some b => dataPD != b
-        | none => false
+      let doFlip := wantFlip pd dataPD
       let new2 := if doFlip then flipSign new1 name else new1
       let dataPD2 := if doFlip then !dataPD else dataPD
       match dts with
